@@ -164,3 +164,30 @@ func checkGlobals(c *Ctx, p *Prog, rule string, pkgs []string) int {
 	}
 	return n
 }
+
+// checkFieldNeverReplaced: a field is written only while its owner is constructed.
+func checkFieldNeverReplaced(c *Ctx, p *Prog, rule, pkg, typ, field, why string) {
+	n := 0
+	for _, f := range p.FuncsIn(pkg) {
+		for _, b := range f.Blocks {
+			for _, in := range b.Instrs {
+				st, ok := in.(*ssa.Store)
+				if !ok {
+					continue
+				}
+				tn, fld, base, ok := fieldOfAddr(st.Addr)
+				if !ok || tn != typ || fld != field {
+					continue
+				}
+				n++
+				construct := "field-never-replaced/" + typ + "." + field + "/in/" + FuncDisplay(f)
+				if isFreshObject(base) {
+					c.Discharge(rule, construct, p.Pos(in.Pos()), "set while the owner is constructed")
+				} else {
+					c.Violate(rule, construct, p.Pos(in.Pos()), typ+"."+field+" is replaced after construction: "+why, nil)
+				}
+			}
+		}
+	}
+	c.Floor(rule, "writers of "+typ+"."+field, n, 1)
+}
